@@ -279,7 +279,7 @@ MUTATIONS = ['delete', 'alter_same', 'alter_size', 'stray', 'retype_dir', 'retyp
              'tamper_manifest', 'stray_dir', 'fifo']
 
 
-def mutate(rng, L, root, kind=None):
+def mutate(rng, L, root, kind=None, manifest_names=True):
     """Apply one mutation to the tree on disk.  Returns description dict or None."""
     kind = kind or rng.choice(MUTATIONS)
     files = sorted(L.files)
@@ -317,7 +317,7 @@ def mutate(rng, L, root, kind=None):
             return {'m': kind, 'p': p}
     elif kind in ('stray', 'stray_dir', 'fifo'):
         d = rng.choice(L.dirs)
-        name = rng.choice(['stray', 'a b2', 'new\\file', '.stray', 'Manifest', 'Manifest.gz', 'Manifest.old']) if kind != 'stray_dir' else 'newdir'
+        name = rng.choice(['stray', 'a b2', 'new\\file', '.stray'] + (['Manifest', 'Manifest.gz', 'Manifest.old'] if manifest_names else [])) if kind != 'stray_dir' else 'newdir'
         if kind == 'fifo' and name.startswith('Manifest'):
             # a FIFO with a Manifest name makes gemato's Manifest discovery block in open() for ever
             # (observation recorded in DESIGN 19; not a case any listed property speaks about)
